@@ -1442,4 +1442,133 @@ theorem isDiagPinned_eq_isDiag (ht : TableOK codes) (hc : 0 < g.ncols) (h2 : g.n
     bne_iff_ne, ne_eq]
   rcases hx with rfl | rfl | rfl <;> rcases hy with rfl | rfl | rfl <;> omega
 
+
+/-! ### the Python wrapper's `idxcells[idxcells >= 0]` -/
+
+theorem keepCells_areaBuffer (nval : Int) (area : List Int) (h : ∀ c ∈ area, 0 ≤ c) :
+    keepCells (areaBuffer nval area) = area := by
+  unfold keepCells areaBuffer
+  rw [List.filter_append]
+  have h1 : area.filter (fun c => decide (0 ≤ c)) = area := by
+    rw [List.filter_eq_self]; intro c hc; simpa using h c hc
+  have h2 : (List.replicate (nval.toNat - area.length) (-1 : Int)).filter (fun c => decide (0 ≤ c)) = [] := by
+    rw [List.filter_eq_nil_iff]; intro c hc
+    rw [List.eq_of_mem_replicate hc]; decide
+  rw [h1, h2, List.append_nil]
+
+/-! ### bounded results -/
+
+/-- the flow-path walk adds at most one step per iteration: `steps` grows with `ipath`, `ipath` by at most
+the number of iterations left -/
+theorem fpLoop_bound (outlet : Int) (diag : Int → Int → Bool) : ∀ (rem : Nat) (s : FpState),
+    (fpLoop codes g outlet diag rem s).ipath ≤ s.ipath + rem ∧
+    (fpLoop codes g outlet diag rem s).steps.length + s.ipath =
+      s.steps.length + (fpLoop codes g outlet diag rem s).ipath := by
+  intro rem
+  induction rem with
+  | zero => intro s; simp [fpLoop]
+  | succ rem ih =>
+    intro s
+    simp only [fpLoop]
+    split
+    · simp
+    · split
+      · simp
+      · split
+        · simp
+        · rename_i d _ _ _
+          obtain ⟨h1, h2⟩ := ih { ipath := s.ipath + 1, up := d, down := d, steps := s.steps ++ [diag s.up d] }
+          dsimp only at h1 h2
+          simp only [List.length_append, List.length_singleton] at h2
+          exact ⟨by omega, by omega⟩
+
+theorem flowPathWith_bound (diag : Int → Int → Bool) (outlet : Int) (nval : Nat) (start : Int) :
+    (flowPathWith codes g outlet diag nval start).2.length ≤ nval := by
+  obtain ⟨h1, h2⟩ := fpLoop_bound (codes := codes) (g := g) outlet diag nval
+    { ipath := 0, up := start, down := -1, steps := [] }
+  simp only [List.length_nil, Nat.zero_add, Nat.add_zero] at h1 h2
+  unfold flowPathWith
+  simp only []
+  split
+  · simp
+  · split
+    · rename_i hc; rw [List.length_append, List.length_singleton]; omega
+    · omega
+
+section Lengths
+variable {α : Type} [CommRing α] [Transc α]
+
+theorem riverLoop_length_le : ∀ (n : Nat) (cur : Int) (dist : α) (dx dy : Int),
+    (riverLoop codes g n cur dist dx dy).length ≤ n := by
+  intro n cur dist dx dy
+  rw [river_rows_cells_length]
+  exact (chainCells_spec n cur).1
+
+/-- the displacement columns: row 0 holds the incoming `(dx, dy)` (zero for the first cell), every later row
+the column / row change of the step that led to it -/
+theorem river_disp : ∀ (n : Nat) (cur : Int) (dist : α) (dx dy : Int),
+    (riverLoop codes g n cur dist dx dy).map (fun r => (r.dx, r.dy)) =
+      if n = 0 then [] else
+        (dx, dy) :: List.zipWith (fun a b => (colOf g.ncols a - colOf g.ncols b, rowOf g.ncols a - rowOf g.ncols b))
+          ((riverLoop codes g n cur dist dx dy).map (·.cell))
+          ((riverLoop codes g n cur dist dx dy).map (·.cell)).tail := by
+  intro n
+  induction n with
+  | zero => intro cur dist dx dy; rfl
+  | succ n ih =>
+    intro cur dist dx dy
+    rw [if_neg (by omega)]
+    simp only [riverLoop]
+    split
+    · simp
+    · have hrec := ih (downstreamCell codes g cur) (dist + hypot dx dy)
+        (colOf g.ncols cur - colOf g.ncols (downstreamCell codes g cur))
+        (rowOf g.ncols cur - rowOf g.ncols (downstreamCell codes g cur))
+      simp only [List.map_cons, List.tail_cons]
+      rw [hrec]
+      cases n with
+      | zero => simp [riverLoop]
+      | succ n =>
+        rw [if_neg (by omega)]
+        have hhead : ∃ t, (riverLoop codes g (n + 1) (downstreamCell codes g cur) (dist + hypot dx dy)
+            (colOf g.ncols cur - colOf g.ncols (downstreamCell codes g cur))
+            (rowOf g.ncols cur - rowOf g.ncols (downstreamCell codes g cur))).map (·.cell) =
+            downstreamCell codes g cur :: t := by
+          rw [river_cells]; exact ⟨_, rfl⟩
+        obtain ⟨t, ht⟩ := hhead
+        rw [ht]
+        simp
+
+end Lengths
+
+/-! ### histories on one `Catchment` object -/
+
+theorem gridAfter_shape (ops : List HistOp) : ∀ g : FlowGrid,
+    (gridAfter g ops).nrows = g.nrows ∧ (gridAfter g ops).ncols = g.ncols := by
+  induction ops with
+  | nil => intro g; exact ⟨rfl, rfl⟩
+  | cons op ops ih =>
+    intro g
+    cases op <;> simp only [gridAfter] <;> exact ih _
+
+/-- the grid an object holds after a history is the constructor's grid with the edits applied, whatever
+else was called in between -/
+theorem histRun_grid (ops : List HistOp) : ∀ s : CatchState,
+    (histRun codes s ops).1.grid = gridAfter s.grid ops := by
+  induction ops with
+  | nil => intro s; rfl
+  | cons op ops ih =>
+    intro s
+    simp only [histRun]
+    rw [ih]
+    cases op with
+    | delineate o inl nval =>
+      simp only [histStep, gridAfter]
+      split <;> rfl
+    | flowpaths =>
+      simp only [histStep, gridAfter]
+      split <;> rfl
+    | setCell c v => rfl
+    | setGrid fd => rfl
+
 end HydroVerif.C06
